@@ -80,7 +80,8 @@ def record_exposure(cfg: dict, construction: str = "python", debug: bool = False
             keep["detector"] = det
         return out
     evs = list(events)
-    evs.append({"e": "done", "result": px.project_result(dt)} if dt is not None else {"e": "done"})
+    evs.append({"e": "done", "result": px.project_result(dt, bool((extra or {}).get("photon3d_shift")))}
+               if dt is not None else {"e": "done"})
     out = {"cfg": cfg, "events": evs, "meta": meta}
     if debug and dt is not None:
         out["debug_nodes"] = debug_nodes(dt)
